@@ -315,11 +315,14 @@ PROPS = {
     "C18": dict(title="Shuffle tables are reproducible per-vertex permutations", level="other", bounded=["C18"], design="8/C18",
                 proof=["dsw.spiderweb.create_random_shuffles#seed", "dsw.spiderweb.create_random_shuffles#noseed", "lemma.digit_bijection",
                        "lemma.digit_bijection_table", "lemma.arc_bijection", "lemma.arc_bijection_table", "dsw.spiderweb.decode#normal-table",
+                       "dsw.spiderweb.decode#fast-table", "dsw.spiderweb.encode#normal-table", "dsw.spiderweb.encode#fast-table",
                        "lemma.ipow_mono", "frame:dsw.spiderweb.create_random_shuffles"],
                 explanation="PROVED: (a) for EVERY permutation row and EVERY live-arc pattern (symbolic rows, not an enumeration) the digit -> live-arc map is "
                             "a bijection (digit_of_arc(arc_of_digit(d)) = d, arc_of_digit(digit_of_arc(j)) = j, selected arc is live), with and without a table; "
-                            "decode with a table raises exactly on non-walks (the raise condition does not mention the table), so shuffling never changes "
-                            "which strands are walks; (b) on the real create_random_shuffles: shape (4^k, 4), every row a permutation of 0..3 (view "
+                            "decode with a table (both modes) raises exactly on non-walks (the raise condition does not mention the table), so shuffling never changes "
+                            "which strands are walks; the real encode with a table (both modes) emits, at every branching vertex, the live arc whose table entry "
+                            "is digit-th smallest (arc_of_digit, the map the lemma shows bijective), its strand is a walk, and neither encode nor decode stores "
+                            "into the caller's table (frame obligation at every store); (b) on the real create_random_shuffles: shape (4^k, 4), every row a permutation of 0..3 (view "
                             "semantics of card = shuffles[index]; random.shuffle permutes in place), and - with numpy's global generator modelled as a "
                             "deterministic state machine (seed fixes the state, each shuffle is a function of state and row) - row i is the (i+1)-th "
                             "shuffle after seed(seed), i.e. the table is a function of (observed_length, seed) only; static frame: no argument "
@@ -331,6 +334,7 @@ PROPS = {
                 assumptions=["numpy's seeded global generator is deterministic (external)"]),
     "C19": dict(title="Arc removal keeps both graph views in step", level="proof", bounded=["C19"], design="8/C19",
                 proof=["dsw.spiderweb.remove_nasty_arc", "dsw.graphized.calculate_intersection_score#shape-sign", "dsw.graphized.obtain_vertices",
+                       "frame:dsw.spiderweb.remove_nasty_arc", "frame:dsw.graphized.calculate_intersection_score", "frame:dsw.graphized.obtain_leaf_vertices",
                        "lemma.shift_append", "lemma.mod_small", "lemma.ipow_mono"],
                 explanation="PROVED per call on the real remove_nasty_arc, for every order k <= 31, every accessor and every latter map describing the same graph "
                             "(the representation invariant lm_of(latter_map, accessor, k), which accessor_to_latter_map establishes - C14): if the call returns, "
